@@ -45,6 +45,12 @@ def run(prop, path):
         print("the obligation belongs to a loop contract (arbitrary iteration): no concrete call to replay; solver model:")
         print(json.dumps(model, indent=1, default=repr)[:2000])
         return 1
+    prev = rec.get("replay") or {}
+    if prev.get("status") == "not-replayable":
+        print("no native replay for this obligation:", prev.get("reason"))
+        print("solver model:", json.dumps(model, indent=1, default=repr)[:2000])
+        print("re-run the check to re-generate and re-decide the obligation on the current tree")
+        return 1
     r = verify.replay(c, case, model, rec.get("clause"))
     print("native replay on the current tree:", json.dumps(r, indent=1, default=repr)[:3000])
     return 1 if r.get("status") in ("confirmed", "other-clause") else 0
